@@ -214,6 +214,19 @@ def simple_parser():
     return parser
 
 
+def _remove_find_cache(builddir):
+    # Load the builtins in their usual order first; the order decides the
+    # order of the generated rules.
+    from .builtins import init as builtin_init
+    builtin_init()
+    from .builtins.find import FindCacheFile
+
+    try:
+        os.remove(os.path.join(builddir, FindCacheFile.cachefile))
+    except FileNotFoundError:
+        pass
+
+
 def configure(parser, subparser, args, extra):
     if ( path.exists(args.builddir) and
          path.samefile(args.srcdir, args.builddir) ):
@@ -237,6 +250,10 @@ def configure(parser, subparser, args, extra):
             env.mopack = build.resolve_packages(env, args.package_files,
                                                 args.package_flags)
 
+        # When configuring an existing build directory again, forget what the
+        # last run found: if we get interrupted before the new build files are
+        # written, a lazy regeneration must not take the old ones for current.
+        _remove_find_cache(args.builddir.string())
         env.save(args.builddir.string())
 
         build_inputs = build.configure_build(env)
